@@ -254,16 +254,27 @@ fn cmd_size(out_path: &str) {
 }
 
 // ------------------------------------------------------------------------------------------------ C11 spec -> impl
+/// cases: {stream, expect, entries: [[entry, cls, why], ...]} as printed by Gen_LZ; one isolated call per
+/// (case, entry) pair, numbered in file order.
 fn cmd_deccmp(cases_path: &str, out_path: &str, from: usize) {
     let cases = read_ndjson(cases_path);
-    run_isolated(&cases, from, out_path, |_, c| {
-        let entry = c["entry"].as_str().unwrap();
-        let cls = c["cls"].as_str().unwrap();
-        let stream = json_to_bytes(&c["stream"]);
-        let expect = json_to_bytes(&c["expect"]);
-        let r = decompress(entry, &stream);
+    let mut flat: Vec<Value> = Vec::new();
+    for (ci, c) in cases.iter().enumerate() {
+        for ei in 0..c["entries"].as_array().map(|a| a.len()).unwrap_or(0) {
+            flat.push(json!({"c": ci, "e": ei}));
+        }
+    }
+    let streams: Vec<Vec<u8>> = cases.iter().map(|c| json_to_bytes(&c["stream"])).collect();
+    let expects: Vec<Vec<u8>> = cases.iter().map(|c| json_to_bytes(&c["expect"])).collect();
+    run_isolated(&flat, from, out_path, |_, f| {
+        let ci = f["c"].as_u64().unwrap() as usize;
+        let ent = &cases[ci]["entries"][f["e"].as_u64().unwrap() as usize];
+        let entry = ent[0].as_str().unwrap();
+        let cls = ent[1].as_str().unwrap();
+        let (stream, expect) = (&streams[ci], &expects[ci]);
+        let r = decompress(entry, stream);
         let (kind, same, got_len, msg) = match &r {
-            Ok(Ok(v)) => ("ok", *v == expect, v.len(), String::new()),
+            Ok(Ok(v)) => ("ok", v == expect, v.len(), String::new()),
             Ok(Err(e)) => ("err", false, 0, e.clone()),
             Err(p) => ("panic", false, 0, p.clone()),
         };
@@ -279,7 +290,8 @@ fn cmd_deccmp(cases_path: &str, out_path: &str, from: usize) {
             Ok(Ok(v)) => v.iter().cloned().take(64).collect(),
             _ => vec![],
         };
-        json!({"conforms": conforms, "kind": kind, "same": same, "got_len": got_len, "got_head": bytes_to_json(&got_head), "msg": msg})
+        json!({"c": ci, "entry": entry, "cls": cls, "conforms": conforms, "kind": kind, "same": same, "got_len": got_len,
+               "got_head": bytes_to_json(&got_head), "msg": msg})
     });
 }
 
